@@ -321,8 +321,23 @@ impl Model for M {
             ));
         }
         let free_edges = format!("{:?}", r.free_edges);
+        // residue of ids that are free right now: anything a later owner of the id could inherit
+        // must keep states apart, or the history that leaves residue is merged with one that does
+        // not and never expanded (seeded change C04: delete_edge kept the property map of a
+        // relationship that had no version-log entry)
+        let mut residue = String::new();
+        for e in 1..r.next_edge {
+            if !r.edges.contains_key(&e) {
+                residue.push_str(&format!("e{e}:{:?}/{:?};", g.get_edge_properties(EdgeId::new(e)).map(|m| m.len()), g.edge_columns.get_property(e as usize, "w")));
+            }
+        }
+        for n in 1..r.next_node {
+            if !r.nodes.contains_key(&n) {
+                residue.push_str(&format!("n{n}:{:?};", g.node_columns.get_property(n as usize, "p")));
+            }
+        }
         format!(
-            "{:?}|{:?}|{:?}|{}|{}|{}|{:?}|{}|{}|segs{}",
+            "{:?}|{:?}|{:?}|{}|{}|{}|{:?}|{}|{}|segs{}|res{}",
             r.nodes,
             r.edges,
             r.free_nodes,
@@ -332,7 +347,8 @@ impl Model for M {
             r.types,
             r.stubs_pending,
             tiers,
-            g.adjacency_stats().frozen_segments
+            g.adjacency_stats().frozen_segments,
+            residue
         )
     }
 }
